@@ -173,6 +173,33 @@ def handleLuaApi (line : String) : String :=
     | _ => "bad"
   | _ => "bad"
 
+/-- `longfault SPEC r|w ADDR => ok|error`: a linear call at the end of the linear view of a fresh machine: the last
+    addresses are fine, everything at or past the end is a fault (the script call raises, the case fails) -/
+def handleLongFault (line : String) : String :=
+  match line.splitOn " => " with
+  | [req, res] =>
+    match words req with
+    | [_, spec, op, as] =>
+      match Facts.docMachine spec, parseHex as with
+      | some k, some a =>
+        let ms := initState k
+        let la := BitVec.ofNat 32 a
+        let modelOk := if op == "r" then (Impl.loadLarge k ms la).1.isSome else (Impl.storeLarge k ms la 1).1
+        let model := if modelOk then "ok" else "error"
+        -- the documentation: the linear view of a machine has `linSize` addresses (the plain machines take the low
+        -- 16 bits of the number, so only their own size matters)
+        let specOk : Bool := match k with
+          | .linear n => a % 65536 < n
+          | _ => decide (a < Spec.linTotal k)
+        let g := res.trimAscii.toString
+        let d := if g == model then "agree" else s!"DIFF api:longfault:model={model}"
+        let v := if g == (if specOk then "ok" else "error") then "specok"
+                 else s!"VIOL C05:api-long-fault:{spec}:{op}:{as}:go={g},C12:api:longfault:{spec}:{op}:{as}"
+        s!"{d} | {v} | longfault"
+      | _, _ => "bad"
+    | _ => "bad"
+  | _ => "bad"
+
 /-- `trapglobals M LOADAT PAD => ok | load_address prog_len pc cycles byte`: what the trap function of run/profile
     sees for the program `PAD × NOP; LDA #7; STA $7F00; BRK` loaded at LOADAT: the header address, the payload length
     (PAD + 6), a program counter inside the storing instruction, the cycles of the instructions completed so far
